@@ -234,6 +234,48 @@ PROPS = {
         "level_note": "Trusted: Coq kernel, extraction, harness (polling with a 2 s bound). Modelled, not verified: "
                       "MultipleServersDiscovery.Update / notifyWatcher, xClient.watch, filterByStateAndGroup.",
     },
+    "C04": {
+        "rule": "260 (thorough 6000) random request sequences: 1-6 requests on 1-3 connections, arbitrary and repeated seqs, one-way / "
+                "two-way / heartbeat, the three dispatch styles (reflected method, registered function, router handler) plus pooled "
+                "(Reset-able) argument types, unknown service / method / codec, undecodable and partially filled arguments, handler "
+                "errors and panics; handler completion order forced through gates (a random permutation); a quarter with the worker "
+                "pool; distinct = distinct model-input line; non-trivial = at least 2 requests",
+        "theorems": ["C04_two_way_exactly_one_stamped", "C04_one_way_no_response", "C04_heartbeat_echo",
+                     "C04_frames_answer_own_connection", "C04_completed_requests_written_once"],
+        "assumptions": ["handlers, the service table and the codecs are universally quantified Section variables; reflection "
+                        "(reflect.Call) is abstracted into the handler function",
+                        "router handlers call ctx.Write at most once (user code)",
+                        "the result is 'computed from that request's own arguments' through the handler function of the model; that "
+                        "pooled argument objects do not leak state between requests is C20 and is checked here by requests that omit "
+                        "fields"],
+        "trusted": ["harness/cmd/vh/srvrig.go: in-memory listener (server.ServeListener, existing extension point), raw peers over "
+                    "harness/internal/refcodec, gated test services in the three dispatch styles"],
+        "level_text": "Theorems for every service table, codec set, handler behaviour, request and completion order: a two-way request "
+                      "gets exactly one response stamped with its seq / path / method / serialization type, a one-way request none, a "
+                      "heartbeat an echo without any handler; every frame written on a connection answers a request read on that "
+                      "connection, and when all requests completed - in any order - each one's frames were written exactly once. The "
+                      "model is run against the real server with forced completion orders.",
+        "level_note": "Trusted: Coq kernel, extraction, server rig. Modelled, not verified: processOneRequest, handleRequest(ForFunction), "
+                      "Context.Write/WriteError, sendResponse.",
+    },
+    "C07": {
+        "rule": "260 (thorough 6000) random request sequences biased to failures (60%): handler error texts {empty, short, multi-line, "
+                "non-ASCII, 64 KiB}, panics, unknown service / method / codec, undecodable arguments, at every position of sequences "
+                "of 1-6 requests incl. one-way, on 1-3 connections; a third of the cases repeat the failing requests through a real "
+                "client.Client and end with a probe call; distinct = distinct model-input line; non-trivial = at least 2 requests",
+        "theorems": ["C07_failures_are_reported", "C07_two_way_exactly_one_stamped", "C07_client_sees_the_text"],
+        "assumptions": ["ServerErrorFunc / ClientErrorFunc unset (defaults)",
+                        "the text of a codec's own decoding error is an input (XDecode)"],
+        "trusted": ["harness/cmd/vh/srvrig.go: in-memory listener (server.ServeListener, existing extension point), raw peers over "
+                    "harness/internal/refcodec, gated test services in the three dispatch styles"],
+        "level_text": "Theorems: for every failure kind the single response has status Error and carries exactly that failure's text "
+                      "(the handler's text unchanged; a message containing the panic value), and - composed with the client machine's "
+                      "interpretation of an Error-status frame - the caller's call completes with a service error of that text; the "
+                      "dispatch of a failing request changes nothing but its own response (no connection or server state in the model "
+                      "to kill). Run against the real server and, end to end, a real client.",
+        "level_note": "Trusted: Coq kernel, extraction, server rig. Modelled, not verified: handleError, service.call's recover, "
+                      "client.input's error branch.",
+    },
     "C12": {
         "rule": "exhaustive weight vectors (quick: n<=3,w<=4 and n=4,w<=2; thorough: n<=4,w<=6) from a random window "
                 "offset, round-robin sets n=0..8 from every cursor offset, and random update/selection histories over a "
